@@ -152,6 +152,19 @@ func runCtm(c *Ctx, _ []string) {
 		c.Hist("blocks", fmt.Sprint(nb))
 		c.Hist("checksum", fmt.Sprint(ck))
 		c.Hist("entropy", ent)
+		// the same stream cut at a random byte, read with one job: how many bytes come out before the error (C09),
+		// against the number of bytes in the frames the model parses before its failure
+		if len(stream) > 2 {
+			k := r.Range(1, len(stream)-1)
+			res2 := decompressTimed(stream[:k], sCfg{"NONE", ent, bs, 1, ck, hint, false}, 1, nil, 0, nil, 60*time.Second)
+			if res2.err == nil || res2.eof || !isPrefix(res2.data, data) {
+				c.Violation(map[string]any{"what": "a truncated NONE/" + ent + " stream was read without an error, or gave bytes that are not a prefix", "cut": k, "of": len(stream)})
+			}
+			fmt.Fprintf(cases, "ctt %d %d %d %d ; %s\n", ck/32, bs, hint, entCode, hex.EncodeToString(stream[:k]))
+			fmt.Fprintf(gout, "T:%d\n", len(res2.data))
+			c.Count("evaluations", 1)
+			c.Hist("truncated", "yes")
+		}
 		if nb > 0 {
 			nontrivial++
 		}
